@@ -11,6 +11,9 @@ correspondence.
 * `follower_commit_eq_min`    — it is exactly `min(leader_commit, whole last index)` (the rule as coded).
 * `follower_commit_mono`      — it does not go backwards as long as the log still covers the old commit index;
   `follower_commit_unchanged` — rejected requests and requests with `leader_commit ≤ commit` leave it alone.
+* `conflict_hint_le_prev`     — the index a follower sends back in a conflict response is never above the
+  refused `prev` (request's prev ≥ 1, inside or beyond a log without purge boundary), so
+  `handle_conflict_response` can only keep or lower `next_index`.
 * `accept_establishes_prefix` — if the request is cut from the leader's log `ldr`, the follower agreed with
   `ldr` up to `prev` and Log Matching holds between the two logs, then after the request (any of the four
   conflict-append paths, fast path included) the follower agrees with `ldr` up to `prev + len`.
@@ -80,6 +83,98 @@ theorem follower_commit_le_leader (st : FState) (r : Req) :
     · rw [follower_commit_eq_min st r hacc hgt]; omega
     · rw [follower_commit_unchanged st r (Or.inr (by omega))]; omega
   · rw [follower_commit_unchanged st r (Or.inl hacc)]; omega
+
+/-! ## conflict hints -/
+
+theorem find?_first_le {f : Nat} {es : List Entry} (h : contigFrom f es = true) (p : Entry → Bool)
+    {z : Entry} (hz : z ∈ es) (hp : p z = true) : ∃ y, es.find? p = some y ∧ y.index ≤ z.index ∧ y ∈ es := by
+  induction es generalizing f with
+  | nil => simp at hz
+  | cons x xs ih =>
+    have hc := (contigFrom_cons f x xs).mp h
+    by_cases hx : p x = true
+    · refine ⟨x, by simp [hx], ?_, List.mem_cons_self⟩
+      have := contigFrom_index_ge h z hz; omega
+    · rcases List.mem_cons.mp hz with rfl | hz'
+      · exact absurd hp hx
+      · obtain ⟨y, hy, hle, hmem⟩ := ih hc.2 hz'
+        exact ⟨y, by simp [hx, hy], hle, List.mem_cons_of_mem _ hmem⟩
+
+/-- **Conflict hints never point past `prev`** (request's `prev` inside the follower's log, or beyond its
+    end): the index sent back is ≤ `prev`, so `handle_conflict_response` can only move `next_index` to or
+    below the position that was just refused. -/
+theorem conflict_hint_le_prev (t : Nat) (r : Req) (l : Log) (hg : gapFree l.ents = true)
+    (h1 : ∀ e ∈ l.ents, 1 ≤ e.index) (hb : l.pIdx = 0) (hprev : 1 ≤ r.prev)
+    (hfirst : l.ents = [] ∨ l.firstIdx ≤ r.prev)
+    {tm : Nat} {ct : Option Nat} {ci : Nat} (h : (checkLegal t r l).1 = .conflict tm ct (some ci)) :
+    ci ≤ r.prev := by
+  unfold checkLegal at h
+  split at h
+  · simp at h
+  · split at h
+    · simp at h
+    · rename_i hv
+      split at h
+      · rename_i t' ht
+        split at h
+        · simp at h
+        · simp only [Ack.conflict.injEq, Option.some.injEq] at h
+          obtain ⟨_, _, hci⟩ := h
+          -- entry_term(prev) = some t' with no purge boundary: prev is inside the log
+          unfold Log.entryTerm at ht
+          split at ht
+          · simp [hb] at ht
+          · rename_i hr
+            simp only [Bool.or_eq_true, beq_iff_eq, decide_eq_true_eq, not_or, Nat.not_lt] at hr
+            cases hf : findE l.ents r.prev with
+            | none => rw [hf] at ht; simp at ht
+            | some z =>
+              rw [hf] at ht
+              simp only [Option.map_some, Option.some.injEq] at ht
+              obtain ⟨hzmem, hzi⟩ := findE_some_index hf
+              obtain ⟨y, hy, hle, _⟩ := find?_first_le ((gapFree_iff _).mp hg) (fun e => e.term == t') hzmem (by simp [ht])
+              simp only [Log.firstIndexForTerm, hy, Option.map_some, Option.getD_some] at hci
+              omega
+      · rename_i ht
+        simp only [Ack.conflict.injEq, Option.some.injEq] at h
+        obtain ⟨_, _, hci⟩ := h
+        -- entry_term(prev) = none: prev lies outside the log; the hint is last+1
+        unfold Log.entryTerm at ht
+        split at ht
+        · rename_i hr
+          simp only [Bool.or_eq_true, beq_iff_eq, decide_eq_true_eq] at hr
+          have hv' : ¬ (r.prev = 0 ∧ r.prevTerm = 0) := by simpa using hv
+          unfold Log.lastLogId at hci
+          cases hgl : l.ents.getLast? with
+          | none =>
+            simp only [hgl, hb, Nat.lt_irrefl, ↓reduceIte] at hci
+            -- empty log, no boundary: hint 1; prev ≥ 1 unless (0, prevTerm≠0)
+            omega
+          | some w =>
+            simp only [hgl, idOf] at hci
+            have hwl : l.lastIdx = w.index := by simp [Log.lastIdx, lastOf, hgl]
+            have hne : l.ents ≠ [] := List.ne_nil_of_mem (List.mem_of_getLast? hgl)
+            have hbd := gapFree_bounds hg hne
+            have hp := lastOf_pos h1 hne
+            rw [Log.lastIdx_eq] at hwl; rw [Log.lastIdx_eq, Log.firstIdx_eq] at hr
+            have hf' : firstOf l.ents ≤ r.prev := by
+              rcases hfirst with h' | h'; exact absurd h' hne; rw [Log.firstIdx_eq] at h'; exact h'
+            rcases hr with (hr | hr) | hr
+            · omega
+            · omega
+            · omega
+        · rename_i hr
+          cases hf : findE l.ents r.prev with
+          | none => 
+            -- in range but not found: impossible in a gap-free log
+            simp only [Bool.or_eq_true, beq_iff_eq, decide_eq_true_eq, not_or, Nat.not_lt] at hr
+            have hne : l.ents ≠ [] := by
+              intro h0; have : l.lastIdx = 0 := by simp [Log.lastIdx, lastOf, h0]
+              omega
+            obtain ⟨z, hz, hzi, _⟩ := entryTerm_inrange hg h1 hne hr.1.2 hr.2
+            have := findE_mem_contig ((gapFree_iff _).mp hg) hz
+            rw [hzi, hf] at this; simp at this
+          | some z => rw [hf] at ht; simp at ht
 
 /-! ## lookups through the conflict-append paths -/
 
